@@ -279,3 +279,8 @@ def run(repo: Repo, rep: Report, tier: str) -> None:
                     src_ok = kw.get("context_id") == f"{rq}._context_id"
             rep.check(ok and src_ok, "event-context", fqn, enclosing(c, (ast.stmt,)), f"the event of {en} carries a context that is not tied to the request's own presentation context id: Event.dataset / identifier / encoded_dataset then decode the received bytes with another context's transfer syntax (wrong byte order / deflate) when two accepted contexts share the SOP class", mod=m, node=c)
     rep.floor("DIMSE handler events carrying a context", n_ctx, 13)
+
+    # ---- the fragments written are the fragments read ---------------------------------------------------
+    from ..delegate import delegate
+    rep.rule("fragments-complete", "the data-set bytes are cut into consecutive fragments that together are the whole data set and are re-joined in order (C15's fragmentation rules)")
+    delegate(repo, rep, tier, "C15", ("overhead", "overhead-count", "order-flags", "reader-bits", "reader-complete", "one-pdv"), "fragments-complete", "for some data-set length and peer maximum the bytes that arrive are not the bytes that were sent (a tail that is never sent, a fragment read out of place)")
